@@ -265,6 +265,20 @@ def run(ctx):
             ctx.violation(f"frames {fr} arriving in one read with rx_seq {rx}: events {got} (rx_seq {rx_after}), expected {want} (rx_seq {rx_want}): every DATA frame "
                           f"is answered by its own ACK or NAK, in order", {"kind": "receiver-read"}, {"read": True, "rx": rx, "frames": fr})
     ctx.cov["distinct_nontrivial"] = nontriv
+    # long payloads: the link carries up to 256 data bytes in a frame (newer EZSP versions use frames of more than 128 bytes);
+    # a long in-sequence frame is a frame like any other (one read each)
+    for rx in range(8):
+        for ln in (127, 128, 129, 200, 220):
+            pay = bytes((7 * i + rx) & 0xFF for i in range(ln)).hex()
+            frames = [f"D:{rx}:0:0:{pay}"]
+            got, rx_after = run_read(rx, frames)
+            want, rx_want = expect_read(rx, frames, ackw, nakw)
+            ctx.cov["evaluations"] += 1
+            ctx.count("long-payload")
+            if got != want or rx_after != rx_want:
+                ctx.violation(f"an in-sequence DATA frame with {ln} data bytes arriving with rx_seq {rx}: events {[g[:24] for g in got]} (rx_seq {rx_after}), expected "
+                              f"{[w_[:24] for w_ in want]} (rx_seq {rx_want})", {"kind": "one-read", "long": True}, {"read": True, "rx": rx, "frames": frames})
+                break
     # an upper layer that raises while it is handed a frame (a payload it cannot make sense of, a handler bug): whatever becomes of
     # the exception, the frame has had its one answer by then - nothing further is written for it, and the next frame is judged
     # by the advanced counter (oracle only)
